@@ -13,7 +13,15 @@ def main(pid, payload):
     use_repo()
     mod = importlib.import_module(f'props.{pid}')
     fn = mod.REPLAYS[payload['fn']]
-    violated, msg = fn(payload)
+    try:
+        violated, msg = fn(payload)
+    except Exception:
+        # an exception escaping the oracle is a defect of the oracle (or an outcome it does not anticipate), not a
+        # reproduction: reserved exit code, the parent reports the candidate as inconclusive
+        import traceback
+        traceback.print_exc()
+        print('REPLAY-ERROR: the concrete oracle raised; not counted as a reproduction')
+        sys.exit(4)
     print(msg)
     print('REPRODUCED: property violated on the real code' if violated else 'not reproduced: property holds on this input')
     sys.exit(1 if violated else 0)
